@@ -83,6 +83,41 @@ example : evalSpline1D Inst.S.t Inst.S.nk Inst.S.degree (fun k => Inst.sol (k % 
   eval_eq_collocRow Inst.S Inst.hadm (Inst.xs 1) (Inst.M 1) (Inst.hM 1 (by decide)) _
     (fun _ i hi => by rw [Inst.hnb]; simp only [Inst.S] at hi; interval_cases i <;> rfl)
 
+/-- **interp_reproduces_1d on the uniform-cubic fast path**: same statement with `cuCollocRow` / `cuEvalSpline1D` (closed-form cubic
+    basis, `int(·)` = `trunc`), for interpolation points whose cell index `trunc((x-xmin)/dx)` lies in `[0, ncells]` -/
+theorem interp_reproduces_1d_cu (trunc : K → ℤ) (xmin dx : K) (ncells : ℕ) (periodic : Bool) (hnc : 0 < ncells)
+    (hper : periodic = true → 3 ≤ ncells) (xs : ℕ → K)
+    (hxs : ∀ i, i < cuNb ncells periodic →
+      0 ≤ trunc ((xs i - xmin) / dx) ∧ trunc ((xs i - xmin) / dx) ≤ ncells)
+    (u sol c0 : ℕ → K)
+    (hsol : ∀ i, i < cuNb ncells periodic →
+      matVec (fun i => cuCollocRow trunc xmin dx ncells (cuNb ncells periodic) periodic (xs i)) (cuNb ncells periodic) sol i = u i) :
+    ∀ i, i < cuNb ncells periodic →
+      CubicUniform.cuEvalSpline1D trunc xmin dx (ncells : ℤ)
+        (computeInterpolant1D periodic (cuNb ncells periodic) 3 sol c0) (xs i) false = u i := by
+  intro i hi
+  have hspec := computeInterpolant1D_spec periodic (cuNb ncells periodic) 3
+    (fun h => by have := hper h; simpa [cuNb, h] using this) sol c0
+  rw [cuEval_eq_collocRow trunc xmin dx (xs i) ncells periodic (hxs i hi).1 (hxs i hi).2 hnc hper _ hspec.1, ← hsol i hi]
+  unfold matVec
+  apply sum_congr rfl
+  intro j hj
+  rw [hspec.2 j (mem_range.mp hj)]
+
+/-- instance: periodic, 3 unit cells on [0,3], points 0,1,2, constant data (rows sum to one) -/
+example : CubicUniform.cuEvalSpline1D (fun q : ℚ => if q < 1 then 0 else if q < 2 then 1 else 2) 0 1 (3 : ℕ)
+    (computeInterpolant1D true 3 3 (fun _ => 1) (fun _ => 0)) 1 false = 1 := by
+  have := interp_reproduces_1d_cu (fun q : ℚ => if q < 1 then 0 else if q < 2 then 1 else 2) 0 1 3 true (by decide)
+    (fun _ => by decide) (fun i => (i : ℚ)) (fun i hi => by
+      have : i < 3 := by simpa [cuNb] using hi
+      interval_cases i <;> norm_num)
+    (fun _ => 1) (fun _ => 1) (fun _ => 0) (fun i hi => by
+      have : i < 3 := by simpa [cuNb] using hi
+      interval_cases i <;>
+        norm_num [matVec, cuNb, cuCollocRow, CubicUniform.cuFindSpan, CubicUniform.cuBasisFuns, rowOf, colIdx, sum_range_succ])
+    1 (by decide)
+  simpa [cuNb] using this
+
 /-- linearity: complex data are interpolated component-wise (`K[i] = K × K` as a `K`-module): if `solRe`, `solIm` solve the
     real systems for the real and imaginary parts then every `K`-linear combination solves the combined system, in
     particular the pair (re, im) is the complex interpolant and it reproduces both parts of the data -/
